@@ -798,9 +798,13 @@ func (s *sim) hsRunning() bool {
 	return !(s.sd[0].hsDone && s.sd[1].hsDone)
 }
 
-// editable: first queue index the MITM may still edit (a unit whose delivery has started is fixed).
+// editable: first queue index the MITM may still restructure. A unit whose delivery has
+// started is fixed. The very first unit of a stream (the delimited ephemeral key) is never
+// dropped, moved or preceded by something else: the reader would then parse ciphertext produced
+// from crypto/rand as a length prefix and the run would no longer be reproducible. It can be
+// replaced (subeph), bit-flipped inside the key, truncated, and duplicated further back.
 func (st *stream) editable() int {
-	if len(st.q) > 0 && st.q[0].off > 0 {
+	if len(st.q) > 0 && (st.q[0].off > 0 || len(st.layout) == 0) {
 		return 1
 	}
 	return 0
@@ -856,6 +860,10 @@ func (s *sim) genTamper(rng *simcore.RNG, r int, kinds []string) simcore.Op {
 	k := kinds[rng.Intn(len(kinds))]
 	switch k {
 	case "flip":
+		if len(st.layout) == 0 && nq > 0 && st.q[0].off == 0 && rng.Bool(0.4) {
+			// a bit of the ephemeral key itself
+			return simcore.Op{"a": "flip", "r": r, "k": 0, "off": rng.Intn(frameSize), "bit": rng.Intn(8)}
+		}
 		if nq <= lo {
 			return nil
 		}
@@ -1248,12 +1256,17 @@ func (s *sim) apply1(op simcore.Op) bool {
 	atOK := at >= lo && at <= len(st.q)
 	switch op.Kind() {
 	case "flip":
-		if !inq(k) || len(st.q[k].b) == 0 {
+		ephUnit := k == 0 && len(st.q) > 0 && st.q[0].off == 0 && len(st.layout) == 0 && !st.q[0].fin && len(st.q[0].b) > 3
+		if !inq(k) && !ephUnit || len(st.q[k].b) == 0 {
 			return false
 		}
 		q := st.q[k]
 		nb := append([]byte{}, q.b...)
-		nb[op.Int("off")%len(nb)] ^= 1 << uint(op.Int("bit")%8)
+		off := op.Int("off") % len(nb)
+		if ephUnit {
+			off = 3 + op.Int("off")%(len(nb)-3) // inside the key, not in the protobuf framing
+		}
+		nb[off] ^= 1 << uint(op.Int("bit")%8)
 		st.q[k] = &qent{b: nb, orig: -1}
 	case "drop":
 		if !inq(k) {
@@ -1302,7 +1315,7 @@ func (s *sim) apply1(op simcore.Op) bool {
 		}
 	case "trunc":
 		// unit k is cut to off bytes, everything behind it is discarded, the MITM hangs up
-		if !inq(k) || len(st.q[k].b) == 0 {
+		if !(inq(k) || k == 0 && len(st.q) > 0 && st.q[0].off == 0 && !st.q[0].fin) || len(st.q[k].b) == 0 {
 			return false
 		}
 		v := st.q[k]
